@@ -15,45 +15,19 @@
                  "meta-level: a rejection before the end of the string is final because the specification automaton's dead state is absorbing and the digit value only grows (stated in the contract, cross-checked by the harness-level run of the automaton over the whole string)"]
 }
 */
-#include <stdlib.h>
-#include "verif.h"
-#include "num_hs_ghost.h"
-struct hs_spec g_hs;
-size_t g_hs_len;
-uint64_t g_hs_sz, g_hs_mult;
-#include "util/humansize.c"
-
-void
-h_hs_parse(void)
-{
-	IN(size_t, slen);
-	__CPROVER_assume(slen < HS_MAXLEN);
-	IN_BYTES(str_raw, slen + 1, HS_MAXLEN);
-	char * str = (char *)str_raw;
-	uint64_t * out = malloc(sizeof(uint64_t));
-	size_t i;
-	int rc;
-
-	__CPROVER_assume(out != NULL);
-	for (i = 0; i < HS_MAXLEN; i++)
-		if (i < slen)
-			__CPROVER_assume(str[i] != '\0');
-	str[slen] = '\0';
-	g_hs_len = slen;
-	HS_SPEC_INIT(g_hs);
-
-	rc = humansize_parse(str, out);
-
-	VCOVER(rc == 0 && g_hs.st == HS_SD && *out > 1000000);
-	VCOVER(rc == 0 && g_hs.st == HS_SS);
-	VCOVER(rc == 0 && g_hs.st == HS_SP && g_hs.k == 6 && *out == 18000000000000000000ULL);	/* "18E" */
-	VCOVER(rc == 0 && g_hs.st == HS_SB && g_hs.k == 0 && *out == 9);			/* "9B", "9 B" */
-	VCOVER(rc == 0 && g_hs.st == HS_SB && g_hs.k == 3);					/* "12 GB" */
-	VCOVER(rc == 0 && *out == UINT64_MAX);
-	VCOVER(rc == -1 && slen == 0);
-	VCOVER(rc == -1 && g_hs.st == HS_SX && g_hs.i < slen);					/* junk in the middle */
-	VCOVER(rc == -1 && g_hs.big);								/* digits >= 2^64 */
-	VCOVER(rc == -1 && !g_hs.big && HS_ACCEPTING(g_hs) && g_hs.k == 6);			/* "19E": multiplier overflow */
-	VCOVER(rc == -1 && !g_hs.big && HS_ACCEPTING(g_hs) && g_hs.k == 1 && g_hs.acc == 18446744073709552ULL);	/* ...552k = 2^64 + 384 */
-	VCOVER(rc == 0 && g_hs.k == 1 && g_hs.acc == 18446744073709551ULL);			/* ...551k fits */
-}
+#define HS_PARSE_ENTRY h_hs_parse
+#define HS_PARSE_MARKERS do { \
+	VCOVER(rc == 0 && g_hs.st == HS_SD && *out > 1000000); \
+	VCOVER(rc == 0 && g_hs.st == HS_SS); \
+	VCOVER(rc == 0 && g_hs.st == HS_SP && g_hs.k == 6 && *out == 18000000000000000000ULL);	/* "18E" */ \
+	VCOVER(rc == 0 && g_hs.st == HS_SB && g_hs.k == 0 && *out == 9);			/* "9B", "9 B" */ \
+	VCOVER(rc == 0 && g_hs.st == HS_SB && g_hs.k == 3);					/* "12 GB" */ \
+	VCOVER(rc == 0 && *out == UINT64_MAX); \
+	VCOVER(rc == -1 && slen == 0); \
+	VCOVER(rc == -1 && g_hs.st == HS_SX && g_hs.i < slen);					/* junk in the middle */ \
+	VCOVER(rc == -1 && g_hs.big);								/* digits >= 2^64 */ \
+	VCOVER(rc == -1 && !g_hs.big && HS_ACCEPTING(g_hs) && g_hs.k == 6);			/* "19E": multiplier overflow */ \
+	VCOVER(rc == -1 && !g_hs.big && HS_ACCEPTING(g_hs) && g_hs.k == 1 && g_hs.acc == 18446744073709552ULL);	/* ...552k = 2^64 + 384 */ \
+	VCOVER(rc == 0 && g_hs.k == 1 && g_hs.acc == 18446744073709551ULL);			/* ...551k fits */ \
+} while (0)
+#include "hs_parse_body.h"
